@@ -37,6 +37,7 @@ type symState struct {
 	wraps  *[]string // continuation wrappers (binds), outermost first
 	nfresh *int
 	tr     *stepTrans
+	obj    *bool // the case calls Value.Get / Value.Set (goes to step_gen_obj)
 }
 
 type stepTrans struct {
@@ -244,6 +245,47 @@ func (st *stepTrans) vexpr(sx *symState, e ast.Expr) string {
 	return ""
 }
 
+// getCall recognises X.Get(K)
+func getCall(e ast.Expr) (r, k ast.Expr, ok bool) {
+	ce, isCall := e.(*ast.CallExpr)
+	if !isCall || len(ce.Args) != 1 {
+		return nil, nil, false
+	}
+	se, isSel := ce.Fun.(*ast.SelectorExpr)
+	if !isSel || se.Sel.Name != "Get" {
+		return nil, nil, false
+	}
+	return se.X, ce.Args[0], true
+}
+
+func isBlank(e ast.Expr) bool {
+	id, ok := e.(*ast.Ident)
+	return ok && id.Name == "_"
+}
+
+// objGet: val, _ := r.Get(k)  -- Value.Get is the hand-written obj_get of Model/VM.v (slices, strings, and the
+// object oracle); what is tied to the source here is the dispatch case around it
+func (st *stepTrans) objGet(sx *symState, rE, kE ast.Expr) string {
+	r := st.vexpr(sx, rE)
+	k := st.vexpr(sx, kE)
+	*sx.obj = true
+	rv, n := sx.fresh("q"), sx.fresh("r")
+	*sx.wraps = append(*sx.wraps, fmt.Sprintf("match obj_get ext_get %s %s %s (ipos i) with inr w => SUnmod w | inl %s =>", sx.st, r, k, rv))
+	*sx.wraps = append(*sx.wraps, fmt.Sprintf("slift %s %s (fun %s =>", rv, sx.st, n))
+	return n
+}
+
+// objSet: r.Set(k, v)
+func (st *stepTrans) objSet(sx *symState, rE, kE, vE ast.Expr) {
+	r := st.vexpr(sx, rE)
+	k := st.vexpr(sx, kE)
+	v := st.vexpr(sx, vE)
+	*sx.obj = true
+	s1 := sx.fresh("st")
+	*sx.wraps = append(*sx.wraps, fmt.Sprintf("match obj_set ext_set %s %s %s %s with inr w => SUnmod w | inl Panic => SFail \"runtime error\" %s | inl Unmodelled => SFail \"runtime error\" %s | inl (Ok %s) =>", sx.st, r, k, v, sx.st, sx.st, s1))
+	sx.st = s1
+}
+
 func (st *stepTrans) bexpr(sx *symState, e ast.Expr) string {
 	switch x := e.(type) {
 	case *ast.ParenExpr:
@@ -283,6 +325,19 @@ func (st *stepTrans) stmts(sx *symState, list []ast.Stmt) string {
 				st.assignStack(sx, x.Rhs[0])
 				st.store(sx, x.Lhs[1], v2)
 				continue
+			}
+			if len(x.Lhs) == 2 && len(x.Rhs) == 1 && isBlank(x.Lhs[1]) {
+				if rE, kE, ok := getCall(x.Rhs[0]); ok {
+					n := st.objGet(sx, rE, kE)
+					if x.Tok == token.DEFINE {
+						name := x.Lhs[0].(*ast.Ident).Name
+						sx.env[name] = n
+						sx.envT[name] = tValue
+					} else {
+						st.store(sx, x.Lhs[0], n)
+					}
+					continue
+				}
 			}
 			if x.Tok == token.DEFINE {
 				if len(x.Lhs) != len(x.Rhs) {
@@ -353,6 +408,12 @@ func (st *stepTrans) stmts(sx *symState, list []ast.Stmt) string {
 				*sx.wraps = append(*sx.wraps, fmt.Sprintf("match znth (globals %s) %s with None => SStuck \"global index\" | Some %s =>", sx.st, idx, old))
 				sx.st = fmt.Sprintf("(set_global %s %s %s)", sx.st, idx, val)
 			default:
+				if se, ok := ce.Fun.(*ast.SelectorExpr); ok && se.Sel.Name == "Set" && len(ce.Args) == 2 {
+					if _, isId := se.X.(*ast.Ident); isId {
+						st.objSet(sx, se.X, ce.Args[0], ce.Args[1])
+						continue
+					}
+				}
 				sbail("call statement %s", exprString(ce.Fun))
 			}
 		case *ast.IfStmt:
@@ -519,7 +580,10 @@ func genSteps(repo string, vt *vtrans) string {
 	sb.WriteString("From Coq Require Import ZArith List String Bool.\nFrom GV Require Import GoSpec.GoPrim Gen.ValueOps_gen Gen.Tables_gen Model.VM.\nImport ListNotations.\nOpen Scope string_scope.\nOpen Scope Z_scope.\n\n")
 	sb.WriteString("(* one dispatch-loop case per translated opcode; None = the case is not in the translated subset *)\n")
 	sb.WriteString("Definition step_gen (i : instr) (slots ops : list value) (s : st) : option sres :=\n  let c := icode i in\n")
-	var translated, skipped []string
+	var translated, skipped, translatedObj []string
+	var sbo strings.Builder
+	sbo.WriteString("(* the dispatch cases that call Value.Get / Value.Set: obj_get / obj_set are the hand-written models of those\n   methods (Model/VM.v); the case around the call is what the Go source says *)\n")
+	sbo.WriteString("Definition step_gen_obj (ext_get : st -> value -> value -> option (res value)) (ext_set : st -> value -> value -> value -> option (res st))\n    (i : instr) (slots ops : list value) (s : st) : option sres :=\n  let c := icode i in\n")
 	for _, cl := range sw.Body.List {
 		cc := cl.(*ast.CaseClause)
 		if cc.List == nil {
@@ -529,6 +593,7 @@ func genSteps(repo string, vt *vtrans) string {
 		for _, e := range cc.List {
 			names = append(names, exprString(e))
 		}
+		usesObj := false
 		term, err := func() (term string, err string) {
 			defer func() {
 				if r := recover(); r != nil {
@@ -541,7 +606,8 @@ func genSteps(repo string, vt *vtrans) string {
 			}()
 			need, nfresh := 0, 0
 			w := []string{}
-			sx := &symState{need: &need, slots: "slots", st: "s", env: map[string]string{}, envT: map[string]goType{}, wraps: &w, nfresh: &nfresh, tr: st}
+			usesObj = false
+			sx := &symState{need: &need, slots: "slots", st: "s", env: map[string]string{}, envT: map[string]goType{}, wraps: &w, nfresh: &nfresh, tr: st, obj: &usesObj}
 			body := wrapAll(w, "")
 			_ = body
 			b := st.stmts(sx, cc.Body)
@@ -565,10 +631,22 @@ func genSteps(repo string, vt *vtrans) string {
 		for _, n := range names {
 			conds = append(conds, fmt.Sprintf("(c =? C %s)", coqStr(n)))
 		}
+		if usesObj {
+			translatedObj = append(translatedObj, names...)
+			sbo.WriteString(fmt.Sprintf("  if %s then Some (\n      %s)\n  else\n", strings.Join(conds, " || "), term))
+			continue
+		}
 		translated = append(translated, names...)
 		sb.WriteString(fmt.Sprintf("  if %s then Some (\n      %s)\n  else\n", strings.Join(conds, " || "), term))
 	}
 	sb.WriteString("  None.\n\n")
+	sbo.WriteString("  None.\n\n")
+	sort.Strings(translatedObj)
+	var tlo []string
+	for _, t := range translatedObj {
+		tlo = append(tlo, coqStr(t))
+	}
+	sbo.WriteString("Definition step_gen_obj_opcodes : list string := [" + strings.Join(tlo, "; ") + "].\n\n")
 	sort.Strings(translated)
 	var tl []string
 	for _, t := range translated {
@@ -580,6 +658,7 @@ func genSteps(repo string, vt *vtrans) string {
 		sb.WriteString("   " + s + "\n")
 	}
 	sb.WriteString("*)\n\n")
+	sb.WriteString(sbo.String())
 	sb.WriteString(genStamp(repo))
 	return sb.String()
 }
